@@ -8,11 +8,11 @@ import (
 
 // weights of the op kinds of a generated history (intent-encoded: every op is valid in every state)
 type hWeights struct {
-	deliver, ack, ackidx, save, savefail, savebegin, saveend, crash, rebalance, ackold, end, scrape int
-	absorbed                                                                                        int // percentage of deliveries that are non-document / internal-key events
-	outside                                                                                         int // per-mille of deliveries placed outside their snapshot (C06)
-	reopenFail                                                                                      int // per-mille of transient ends whose first reopen attempt is refused
-	maxVb, minOps, maxOps                                                                           int
+	deliver, ack, ackidx, save, savefail, savebegin, saveend, crash, rebalance, ackold, end, scrape, savequeue int
+	absorbed                                                                                                   int // percentage of deliveries that are non-document / internal-key events
+	outside                                                                                                    int // per-mille of deliveries placed outside their snapshot (C06)
+	reopenFail                                                                                                 int // per-mille of transient ends whose first reopen attempt is refused
+	maxVb, minOps, maxOps                                                                                      int
 }
 
 var absorbedKinds = []string{"cc", "cd", "cf", "sc", "sd", "cm", "adv", "adv", "ikey", "txn"}
@@ -44,6 +44,7 @@ func genHistory(t *rapid.T, w hWeights) hScenario {
 	add("ackold", w.ackold)
 	add("end", w.end)
 	add("scrape", w.scrape)
+	add("savequeue", w.savequeue)
 	opGen := rapid.Custom(func(t *rapid.T) hOp {
 		k := rapid.SampledFrom(kinds).Draw(t, "op")
 		op := hOp{Op: k}
